@@ -34,7 +34,7 @@ def explore(ctx):
                 'at element granularity (scheduling points: region start, member end, first touch of each 8-byte element of a data buffer, every mem* call on one), end-of-region memory state equal to the default schedule '
                 '(so per-region exploration covers the cross product) and final output equal to the reference; (free) the same scenario bodies under real ThreadSanitizer with a pthread stand-in. '
                 'state = (scenario, team, order/schedule); transition = one parallel region executed (serial) or one schedule (coop)')
-    ctx.bounds = {'team_sizes': '1,2,3,4,5,8 (thorough: ..9,16,17); parcpy/parSetZero thread arguments -1,0,1,2,3,64,101', 'preemption_bound': 3 if th else 2,
+    ctx.bounds = {'team_sizes': '1,2,3,4,5,8 (thorough: ..9,16,17); parcpy/parSetZero thread arguments -1,0,1,2,3,64,101', 'preemption_bound': '3 for teams of 2 and 3, 2 for teams of 4' if th else 2,
                   'coop_team_sizes': [2, 3, 4] if th else [2, 3], 'transform sizes': '4,8,16 (thorough 2..32); coop: 4,8'}
     ctx.assumptions = ['conflict-free access sets in a region without internal synchronisation make all its interleavings one Mazurkiewicz trace: one execution per member order then covers every schedule (partial-order reduction); the coop exploration checks this independently within its bound',
                        'sequential consistency; weaker memory-model effects are irrelevant for race-free regions, which is what is decided',
